@@ -49,7 +49,8 @@ Run(c) ==
                                     l == pool[(c.nlit % Len(pool)) + 1]
                                 IN  Run([c EXCEPT !.stack = rest, !.nlit = c.nlit + 1, !.g = FALSE,
                                                   !.out = Append(c.out, <<"lit", l[1], s[3] \/ c.g>>),
-                                                  !.vals = Append(c.vals, l[2])])
+                                                  !.vals = Append(c.vals, l[2]),
+                                                  !.lits = c.lits \cup {"lit:" \o s[2] \o ":" \o l[1]}])
              [] s[1] = "g"   -> Run([c EXCEPT !.stack = rest, !.g = TRUE])
              [] s[1] = "r"   -> Run([c EXCEPT !.stack = rest,
                                               !.vals = Append(Kept(c.vals, s[3]), <<s[2]>> \o Popped(c.vals, s[3]))])
@@ -59,11 +60,11 @@ Run(c) ==
              [] s[1] = "p"   -> Run([c EXCEPT !.stack = rest, !.vals = Append(c.vals, s[2])])
              [] OTHER        -> c      \* non-terminal on top: a choice is needed
 
-Cfg == [stack |-> stack, out |-> out, vals |-> vals, nid |-> nid, nlit |-> nlit, g |-> gl]
+Cfg == [stack |-> stack, out |-> out, vals |-> vals, nid |-> nid, nlit |-> nlit, g |-> gl, lits |-> {}]
 
-Init == LET c == Run([stack |-> <<N(Start)>>, out |-> <<>>, vals |-> <<>>, nid |-> 0, nlit |-> 0, g |-> FALSE])
+Init == LET c == Run([stack |-> <<N(Start)>>, out |-> <<>>, vals |-> <<>>, nid |-> 0, nlit |-> 0, g |-> FALSE, lits |-> {}])
         IN  /\ stack = c.stack /\ out = c.out /\ vals = c.vals /\ nid = c.nid /\ nlit = c.nlit /\ gl = c.g
-            /\ fuel = Fuel /\ labs = {}
+            /\ fuel = Fuel /\ labs = c.lits
 
 (* One step: expand the non-terminal on top by any production the budget allows, then run on *)
 Expand ==
@@ -73,8 +74,8 @@ Expand ==
         /\ p.l \notin Quarantine
         /\ LET c == Run([Cfg EXCEPT !.stack = p.r \o Tail(stack)])
            IN  /\ stack' = c.stack /\ out' = c.out /\ vals' = c.vals /\ nid' = c.nid /\ nlit' = c.nlit /\ gl' = c.g
+               /\ labs' = (IF p.l = "" THEN labs ELSE labs \cup {p.l}) \cup c.lits
         /\ fuel' = fuel - p.c
-        /\ labs' = IF p.l = "" THEN labs ELSE labs \cup {p.l}
 
 Next == Expand
 Spec == Init /\ [][Next]_vars
